@@ -259,7 +259,7 @@ func TestVerif_C19(t *testing.T) {
 	r.Require("scripted_receiver_runs", int64(ns*9/10))
 	r.Require("scripted_packets_dropped", 500)
 	r.Require("scripted_runs_needing_retransmission_after_faults", 100)
-	r.Require("runs_completed", int64(n*8/10))
+	r.Require("runs_completed", int64(n*6/10))
 	r.Require("stream_retransmissions", 10)
 	r.Require("out_of_order_arrivals", 10)
 	r.Require("close_returned_nil_checked", 10)
